@@ -66,6 +66,10 @@ def cases(tier, seed):
             for ax in [0, -1, -2, 1] + list(itertools.permutations(range(-2, 2), len(vs))):
                 for strict in (False, True):
                     out.append(('diag', tr, vs, ax, strict))
+    # the same explicit axes given as a list instead of a tuple (any sequence of axes is accepted by the constructor)
+    for xs, vs, ax in [((2, 3), (3, 2), (1, 0)), ((2, 3), (2, 3), (-2, -1)), ((2, 3, 2), (2, 2), (2, 0)), ((3, 2), (2, 3), (1, 0)), ((2, 3), (3,), (-1,)), ((2, 2, 3), (3, 2), (-1, 0))]:
+        for strict in (False, True):
+            out.append(('diagl', (xs,), vs, ax, strict))
     out.append(('illegal',))
     return out
 
@@ -136,6 +140,7 @@ def run_case(key, twin=False):
     if key[0] == 'illegal':
         return _illegal()
     _, shapes, vs, ax, strict = key
+    ax_arg = list(ax) if key[0] == 'diagl' else ax
     ins = _ins(shapes)
     legal = True
     why = ''
@@ -145,7 +150,7 @@ def run_case(key, twin=False):
         legal, why = False, str(ex)
     cls = _cls(strict)
     try:
-        op0 = cls(jnp.ones(vs), axis_destination=ax, in_structure=ins)
+        op0 = cls(jnp.ones(vs), axis_destination=ax_arg, in_structure=ins)
         built, err = True, None
     except Exception as ex:  # noqa: BLE001
         built, err = False, ex
@@ -164,7 +169,7 @@ def run_case(key, twin=False):
     dec = Decider()
     v = E.sym_array('v0', vs)
     x = E.symbols('x', ins)
-    got, gs, _ = E.run(ctx, lambda v, x: cls(v, axis_destination=ax, in_structure=ins).mv(x), [('v', S(*vs), 'sym'), ('x', ins, 'sym')])
+    got, gs, _ = E.run(ctx, lambda v, x: cls(v, axis_destination=ax_arg, in_structure=ins).mv(x), [('v', S(*vs), 'sym'), ('x', ins, 'sym')])
     if not structs_equal(gs, outs):
         return violation(f'mv output {describe_struct(gs)} != {describe_struct(outs)} for {key}', signature=f'c11-struct:{key}', kind='struct')
     xl = jax.tree.leaves(x, is_leaf=E.is_sym)
@@ -175,7 +180,7 @@ def run_case(key, twin=False):
         def flat(t):
             return jnp.concatenate([l.ravel() for l in jax.tree.leaves(t)])
         try:
-            dm, _, _ = E.run(ctx, lambda v, x: cls(v, axis_destination=ax, in_structure=ins).as_matrix() @ flat(x), [('v', S(*vs), 'sym'), ('x', ins, 'sym')])
+            dm, _, _ = E.run(ctx, lambda v, x: cls(v, axis_destination=ax_arg, in_structure=ins).as_matrix() @ flat(x), [('v', S(*vs), 'sym'), ('x', ins, 'sym')])
             r2 = dec.decide(ctx, pairs(dm, got, ctx))
         except E.Unsupported:
             raise
@@ -188,7 +193,7 @@ def run_case(key, twin=False):
             res = [r2]
         else:
             # D.I(D x) = x wherever every value is non-zero
-            iv, _, _ = E.run(ctx, lambda v, x: (lambda o: o.I.mv(o.mv(x)))(cls(v, axis_destination=ax, in_structure=ins)), [('v', S(*vs), 'sym'), ('x', ins, 'sym')])
+            iv, _, _ = E.run(ctx, lambda v, x: (lambda o: o.I.mv(o.mv(x)))(cls(v, axis_destination=ax_arg, in_structure=ins)), [('v', S(*vs), 'sym'), ('x', ins, 'sym')])
             nz = [lambda enc, a=a: enc.term(a) != 0 for a in E.flat_elems(v)]
             r3 = dec.decide(ctx, pairs(iv, x, ctx), assumptions=nz)
             if r3.status == 'sat':
@@ -244,10 +249,11 @@ def replay(key, model, info):
         r = run_case(key)
         return r['status'] == 'violation', r.get('what', 'ok')
     _, shapes, vs, ax, strict = key
+    ax_arg = list(ax) if key[0] == 'diagl' else ax
     ins = _ins(shapes)
     v = np.asarray(model_tree(model, 'v', S(*vs)))
     x = model_tree(model, 'x', ins)
-    op = _cls(strict)(jnp.asarray(v), axis_destination=ax, in_structure=ins)
+    op = _cls(strict)(jnp.asarray(v), axis_destination=ax_arg, in_structure=ins)
     got = op.mv(x)
     if kind == 'as_matrix':
         flat = lambda t: np.concatenate([np.asarray(l).ravel() for l in jax.tree.leaves(t)])  # noqa: E731
